@@ -20,7 +20,13 @@ RULE = ("exhaustive: every string of length <= 5 (quick) / 6 (thorough) over {x,
         "length 5/6, over all 52 ASCII letters + {2,^,+,-,.,space,/,e-acute} to length 3/4 and over {x,y,2,^,+,-,.,/} to length 6/7; "
         "two/three-letter templates in either case; oracle-only texts with characters of every Unicode class (look-alikes of the "
         "operators, non-ASCII digits, letters of every UTF-8 width, all white space) and texts of 10^5..10^6 characters / "
-        "thousands of terms with their exact meaning; every text through the trait and the free-function entry points. Non-trivial = a prefix class in which at least one "
+        "thousands of terms with their exact meaning; every text through the trait and the free-function entry points; long "
+        "fragments (every byte length 1..80, 130, 200, 260) at 24 places of a term (exponent, coefficient, fraction parts, constant, "
+        "letter run, junk after the variable, white space ...) holding a 2-, 3- or 4-byte character of every class (letter, number, "
+        "symbol, white space, none) at every byte offset, alone and together with a second one at the start / end of the fragment "
+        "(`long <parser> <100+site> <char>` sweeps, refined to the single text), the same as single texts where the character lies "
+        "across byte 16 / 32 / 64 from either end; words and literal forms of other number parsers (inf, nan, infinity, e in every "
+        "case, 1e5, 0x10, 1_000, 1f32, 3j ...) in every position of a term. Non-trivial = a prefix class in which at least one "
         "string is accepted, or a single text the model accepts; distinct = distinct request lines (each enum request stands for "
         "15^(L-2)-ish distinct strings, counted in coverage.notes)")
 
@@ -53,9 +59,17 @@ def tag(req, model):
         return f"long{r[1]}:kind{r[2]}"
     return r[0] + ":" + (m[0] if m else "empty") + (":" + m[1] if m and m[0] == "err" else "")
 
+FRAG_LENGTHS = list(range(1, 81)) + [130, 200, 260]   # harness/src/c16.rs `frag_lengths`
+
 def refine(req):
-    """sub-requests that together cover an enum request; [] when it cannot be refined further"""
+    """sub-requests that together cover an enum / sweep request; [] when it cannot be refined further"""
     r = req.split()
+    if r[0] == "long" and 100 <= int(r[2]) < 200:
+        # a sweep of long fragments: one request per (byte length, byte offset) - the harness answers `-` where the
+        # character does not fit
+        # (twin = 0: one multi-byte character; 1 / 2: the fragment also begins / ends with it, lengths <= 80 only)
+        return [f"long {r[1]} {int(r[2]) + 100} {((tw * 100 + int(r[3])) * 1000 + L) * 1000 + p}"
+                for tw in (0, 1, 2) for L in FRAG_LENGTHS if tw == 0 or L <= 80 for p in range(L - 1)]
     if r[0] not in ("enum", "enumx"):
         return []
     parser, maxlen = r[1], int(r[2])
